@@ -167,6 +167,28 @@ Proof.
   - pose proof (zrange_last_bounds s0 (n c - zlast (fh c) + 1 - 1) (step c)). lia.
 Qed.
 
+(* closed form of the number of splits: ceil((last feasible cutoff bound - first cutoff) / step) *)
+Theorem n_splits_formula c : valid c -> feasible c = true ->
+  window_n_splits c = (n c - fhmax c - first_cutoff c + step c - 1) / step c /\
+  1 <= window_n_splits c.
+Proof.
+  intros Hv Hf. pose proof Hv as (Hfh & Hwl & Hst & Hiw).
+  pose proof (feasible_facts c Hf) as (Hfe & Hfi).
+  pose proof (valid_fh_last_pos _ Hfh) as Hl. unfold fhmax in *.
+  assert (Hcs : exists s0, window_cutoffs c = zrange s0 (n c - zlast (fh c)) (step c)
+                           /\ s0 = first_cutoff c /\ s0 < n c - zlast (fh c)).
+  { unfold window_cutoffs, regular_cutoffs, first_cutoff, start_point, end_point, fhmax.
+    destruct (iw c) as [i|] eqn:Ei.
+    - destruct (Hfi i eq_refl) as (Hi1 & Hi2 & Hi3). rewrite Hi2. eexists.
+      split; [f_equal; lia|]. lia.
+    - destruct (sww c); eexists; (split; [f_equal; lia|]); lia. }
+  destruct Hcs as (s0 & Hc & Hs0 & Hlt). unfold window_n_splits. rewrite Hc, zrange_length by lia.
+  rewrite <- Hs0.
+  assert (1 <= (n c - zlast (fh c) - s0 + step c - 1) / step c).
+  { apply Z.div_le_lower_bound; lia. }
+  split; lia.
+Qed.
+
 Lemma split_cutoff_test f cut tr : f <> [] -> split_cutoff f (tr, map (fun h => cut + h) f) = cut.
 Proof.
   intro H. destruct f as [|a t]; [congruence|]. unfold split_cutoff. cbn. lia.
